@@ -2,8 +2,9 @@
 
 Decided: the event plumbing that lets the segment fetcher fall back to the
 remaining shares (DESIGN.md section 5, C03): wake-up discipline, per-state share
-bookkeeping, share abandonment, the gate of the not-enough-shares verdict and
-the per-server diversity escalation."""
+bookkeeping, share abandonment, the gate of the not-enough-shares verdict, the
+per-server diversity escalation, the hand-over of shares / requests / blocks on the success path and the request
+accounting of the finder."""
 from sa.h import *
 
 EXPLANATION = (
@@ -20,10 +21,24 @@ EXPLANATION = (
     "reached only under _no_more_shares and a k-count that includes blocks, active and overdue shares, "
     "_no_more_shares is set only by no_more_shares(), which only the finder announces, and only with no server "
     "left and no request in flight; (5) the want_more_diversity branch raises _max_shares_per_server and retries, "
-    "and _find_and_use_share flags every share skipped for the per-server limit. Undecided: that the loop's "
-    "choices reach k for every fault timing; removal from _shares_from_server (compensated by (5), so not a "
-    "necessary condition).")
-TECHNIQUE = "static analysis: must-pass path queries with excusing edge facts, CFG exploration per share state, Deferred chain order"
+    "and _find_and_use_share flags every share skipped for the per-server limit; (6) _start_new_segment hands a new "
+    "fetcher only live shares; (7) the success path really hands things over: add_shares keeps the shares it is given, "
+    "_got_response delivers shares made by _create_share from the buckets of the answer, get_block enters the observer "
+    "it returns into _requested_blocks on every path and makes it cancellable, _find_and_use_share starts the share it "
+    "picks, records it in _active_share_map, takes it out of the unused list and reports sent_something, a block request "
+    "(_satisfy_data_block, BADSEGNUM in _get_satisfaction) is retired exactly when its observers were notified and "
+    "COMPLETE carries the block to every observer, _do_loop never settles down to wait with fewer than k blocks + "
+    "requests without asking for more shares, and Share.loop / SegmentFetcher._do_loop / ShareFinder.loop reach their "
+    "work when the share is alive / the fetcher running / the finder running and hungry; (8) the premise of the "
+    "no_more_shares gate: send_request enters the request token into pending_requests, the DYHB Deferred retires it on "
+    "success and failure, _request_retired removes it, overdue() marks it in overdue_requests, and the server variable "
+    "of ShareFinder.loop is bound on every path. Undecided: that the loop's choices reach k for every fault timing; "
+    "removal from _shares_from_server and the `>=` of the per-server limit (compensated by (5), so not necessary "
+    "conditions); every value-level clause: which byte range _satisfy_data_block / _send_requests read (block offset, "
+    "tail length, argument order), the off-by-one of the segment-number and k comparisons, the order of the hash-tree "
+    "steps of _get_satisfaction, the argument order of _fail / notify / _start_share (a swapped call raises at its "
+    "first use), max_outstanding_requests and the overdue timer itself (latency only), and _last_failure (reporting).")
+TECHNIQUE = "static analysis: must-pass path queries with excusing edge facts, CFG exploration per share state / per fact set, def-use closure, Deferred chain order"
 
 NODE = "immutable.downloader.node:DownloadNode"
 FETCH = "immutable.downloader.fetcher:SegmentFetcher"
@@ -106,6 +121,39 @@ def _must_pass(r, fn, required, what, excuse=None):
     r.count(n)
     for w in ws:
         r.violation(fn, fn.loc(), "%s can return without %s (path: %s)" % (short(fn), what, w.brief()), w)
+
+
+def _must_pass_flags(r, fn, required, what, excuse=None):
+    """_must_pass that also follows local flags bound to constants, so that a for/else rewritten as
+    `found = False; for ..: found = True; break` + `if not found:` is not mistaken for an unguarded path."""
+    cfg = fn.cfg()
+    fx = _fnorm(fn)
+
+    def transfer(n, lab, nxt, st):
+        if excuse is not None and excuse(n, lab):
+            return None
+        if n.kind in ("entry", "exit", "raise") or lab == "exc":
+            return st
+        if required(n):
+            return None
+        flags = dict(st)
+        a = n.ast
+        for name in node_stores(n):
+            flags.pop(name, None)
+        if n.kind == "stmt" and isinstance(a, ast.Assign) and len(a.targets) == 1 and isinstance(a.targets[0], ast.Name) \
+                and isinstance(a.value, ast.Constant):
+            flags[a.targets[0].id] = bool(a.value.value)
+        f = fx.edge_fact(n, lab)
+        if f and f[0] in ("truth", "false") and f[1] in flags and flags[f[1]] != (f[0] == "truth"):
+            return None
+        return frozenset(flags.items())
+    visited, parent = explore(cfg, frozenset(), transfer)
+    r.count(len(visited))
+    for (nid, st) in sorted(visited, key=lambda x: (x[0], sorted(x[1]))):
+        if nid == cfg.exit.id:
+            w = witness(cfg, parent, (nid, st))
+            r.violation(fn, fn.loc(), "%s can return without %s (path: %s)" % (short(fn), what, w.brief()), w)
+            break
 
 
 def _fact_excuse(fn, pred):
@@ -241,6 +289,7 @@ def _notifies(state_names):
                     return True
         return False
     return p
+
 
 def _observer_loops(fn, over, state_names):
     """for-loops whose iterable (after alias resolution) is `over` and whose body notifies one of the states
@@ -722,6 +771,338 @@ def run(ctx: Context):
                     break
 
 
+def _reaches_when(fn, target, forbidden):
+    """(some `target` node is reachable from the entry on normal edges whose fact does not satisfy `forbidden`,
+    number of states)."""
+    cfg = fn.cfg()
+    fx = _fnorm(fn)
+
+    def transfer(n, lab, nxt, st):
+        if lab == "exc":
+            return None
+        f = fx.edge_fact(n, lab)
+        if f and forbidden(*f):
+            return None
+        return 0
+    visited, _parent = explore(cfg, 0, transfer)
+    return any(target(cfg.nodes[nid]) for (nid, _st) in visited), len(visited)
+
+
+def _on_path(fn, p):
+    """Method calls / stores on the attribute path `p`: (node) -> list of (method name, call)."""
+    def calls(n):
+        return [(c.func.attr, c) for c in node_calls(n) if isinstance(c.func, ast.Attribute) and attr_path(c.func.value) == p]
+    return calls
+
+
+def _reads(name):
+    def p(n):
+        return any(isinstance(x, ast.Name) and x.id == name and isinstance(x.ctx, ast.Load)
+                   for e in node_exprs(n) for x in ast.walk(e))
+    return p
+
+
+def _rule_hand_over(ctx: Context):
+    """C03.7: the success path.  Every hand-over of a share, a request or a block between finder, node, fetcher
+    and share really transfers it; a request is retired exactly when its observers were told."""
+    idx = ctx.idx
+    with ctx.rule("C03.7", "R2", "shares, block requests and blocks are really handed over: add_shares keeps the shares, "
+                  "_got_response delivers the shares it created, get_block registers the observer it returns, "
+                  "_find_and_use_share starts / records / removes / reports the share it picks, a block request is "
+                  "retired exactly when its observers were notified, _do_loop asks for more shares before it waits, and "
+                  "the loops run for a live share / running fetcher / hungry finder", expected=11) as r:
+        GROW = ("extend", "append", "add", "update", "insert")
+
+        # (a) SegmentFetcher.add_shares keeps what it is given
+        fn = idx.func(FETCH + ".add_shares")
+        par = first_positional_params(fn)[0]
+        on_shares = _on_path(fn, "self._shares")
+
+        def keeps(n, _fn=fn, _p=par):
+            if n.kind == "iter":     # `for s in shares: self._shares.append(s)`: every iteration keeps its share
+                return _p in depends_on(_fn, n.ast.iter) and bool(_fn.cfg().find(lambda m: m is not n and m.kind != "iter" and keeps(m))) \
+                    and not _loop_body_must_pass(_fn, n, lambda m: m.kind != "iter" and keeps(m))
+            for (m, c) in on_shares(n):
+                if m in GROW and any(_p in depends_on(_fn, a) for a in c.args):
+                    return True
+            a = n.ast
+            return n.kind == "stmt" and "self._shares" in node_stores(n) and isinstance(a, (ast.Assign, ast.AugAssign, ast.AnnAssign)) \
+                and a.value is not None and _p in depends_on(_fn, a.value)
+        r.site(fn, None, "keeps the shares")
+        _must_pass(r, fn, keeps, "adding `%s` to self._shares: the shares found are dropped and never requested" % par)
+
+        # (b) ShareFinder._got_response delivers the shares made from the buckets of the answer
+        fn = idx.func(FINDER + "._got_response")
+        p0 = first_positional_params(fn)[0]
+        dcalls = [c for n in fn.cfg().find(_calls(fn, "self._deliver_shares")) for c in node_calls(n)
+                  if call_tail(c) == "_deliver_shares"]
+        if not dcalls:
+            raise AnchorVanished("_got_response no longer calls _deliver_shares")
+        for c in dcalls:
+            r.site(fn, c, "delivers the created shares")
+            a0 = arg(c, 0)
+            made = [x for x in (calls_feeding(fn, a0) if a0 is not None else []) if call_tail(x) == "_create_share"]
+            r.require(bool(made), fn, fn.loc(c), "the shares passed to _deliver_shares (%s) do not come from _create_share: the "
+                      "shares a server reports are never handed to the fetcher" % (src(fn, a0) if a0 is not None else "nothing"))
+            for x in made:
+                r.require(any(p0 in depends_on(fn, a) for a in list(x.args) + [k.value for k in x.keywords]), fn, fn.loc(x),
+                          "_create_share(..) is not fed from the buckets of the answer (`%s`)" % p0)
+
+        # (c) Share.get_block registers the observer it returns, and makes it cancellable
+        fn = idx.func(SHARE + ".get_block")
+        cfg = fn.cfg()
+        rets = [n for n in cfg.find(is_return)]
+        onames = {n.ast.value.id for n in rets if isinstance(n.ast.value, ast.Name)}
+        if not rets or len(onames) != 1 or not all(isinstance(n.ast.value, ast.Name) for n in rets):
+            raise AnchorVanished("Share.get_block no longer returns its observer variable")
+        ob = onames.pop()
+        on_req = _on_path(fn, "self._requested_blocks")
+
+        def registers(n, _fn=fn, _o=ob):
+            for (m, c) in on_req(n):
+                if m in GROW and any(_o in depends_on(_fn, a) for a in c.args):
+                    return True
+            for c in node_calls(n):
+                if isinstance(c.func, ast.Attribute) and c.func.attr in ("add", "append") and isinstance(c.func.value, ast.Name) \
+                        and any(attr_path(a) == _o for a in c.args) \
+                        and "self._requested_blocks" in depends_on(_fn, c.func.value):
+                    return True
+            a = n.ast
+            return n.kind == "stmt" and ({"self._requested_blocks", "self._requested_blocks[]"} & node_stores(n)) \
+                and isinstance(a, (ast.Assign, ast.AugAssign)) and _o in depends_on(_fn, a.value)
+        r.site(fn, None, "registers observer `%s`" % ob)
+        _must_pass_flags(r, fn, registers, "entering the observer `%s` into self._requested_blocks: the share never fetches the "
+                   "block and the fetcher waits for ever" % ob)
+
+        def cancellable(n, _fn=fn, _o=ob):
+            for c in node_calls(n):
+                if call_tail(c) == "set_canceler" and attr_path(c.func.value) == _o and len(c.args) >= 2 \
+                        and attr_path(c.args[0]) == "self" and isinstance(c.args[1], ast.Constant) \
+                        and isinstance(c.args[1].value, str) and _fn.cls.lookup(c.args[1].value) is not None:
+                    return True
+            return False
+        r.site(fn, None, "observer is cancellable")
+        _must_pass(r, fn, cancellable, "%s.set_canceler(self, <name of a Share method>): SegmentFetcher.stop() cancels the "
+                   "outstanding requests, so a read that runs out of shares dies in stop() instead of reporting "
+                   "not-enough-shares" % ob)
+
+        # (d) a block request is retired exactly when its observers were told
+        def retires(n):
+            for c in node_calls(n):
+                if isinstance(c.func, ast.Attribute) and c.func.attr in ("pop", "remove") \
+                        and attr_path(c.func.value) == "self._requested_blocks":
+                    return True
+            return n.kind == "stmt" and bool({"self._requested_blocks", "self._requested_blocks[]"} & node_stores(n))
+        sd = idx.func(SHARE + "._satisfy_data_block")
+        obsparam = first_positional_params(sd)[1]
+        gs = idx.func(SHARE + "._get_satisfaction")
+        told = {"COMPLETE", "CORRUPT", "DEAD", "BADSEGNUM"}
+        for (f, over) in ((sd, obsparam), (gs, None)):
+            cfg = f.cfg()
+            loops = _observer_loops(f, over, told)
+            r.site(f, None, "notified <=> retired")
+            if not loops:
+                raise AnchorVanished("%s no longer notifies its observers" % short(f))
+            rn = cfg.find(retires)
+            if not rn:
+                r.violation(f, f.loc(), "%s no longer retires the block request it answered (self._requested_blocks.pop): the "
+                            "share stays on this segment and never serves a later one" % short(f))
+            for (n, w) in find_path_avoiding(cfg, retires, gate_node=lambda x, _l=loops: x in _l):
+                r.violation(f, f.loc(n.ast), "a block request is retired although its observers were told nothing: the fetcher "
+                            "waits for this share for ever (path: %s)" % w.brief(), w)
+            for h in loops:
+                ws, k, _v, _p = _unexcused(f, retires, start=h, ends=("exit",))
+                r.count(k)
+                for w in ws:
+                    r.violation(f, f.loc(h.ast), "the observers are told but the request stays at the head of _requested_blocks: "
+                                "the share fetches and reports this block again and again and never serves another "
+                                "segment (path: %s)" % w.brief(), w)
+        done = _observer_loops(sd, obsparam, {"COMPLETE"})
+        r.require(bool(done), sd, sd.loc(), "_satisfy_data_block no longer notifies COMPLETE to its observers: a validated block "
+                  "is never delivered and the segment cannot reach k blocks")
+        for h in done:
+            def gives_block(n):
+                return any(call_tail(c) == "notify" and kwarg(c, "block") is not None and _notifies({"COMPLETE"})(n)
+                           for c in node_calls(n))
+            for w in _loop_body_must_pass(sd, h, gives_block):
+                r.violation(sd, sd.loc(h.ast), "an observer can be skipped without the COMPLETE notification carrying the block "
+                            "(path: %s)" % w.brief(), w)
+
+        # (e) SegmentFetcher._find_and_use_share: the share it picks is started, recorded as active, taken out of
+        # the unused list and reported as sent
+        fu = idx.func(FETCH + "._find_and_use_share")
+        cfg = fu.cfg()
+        fx = _fnorm(fu)
+        rets = [n for n in cfg.nodes if is_return(n) and isinstance(n.ast.value, ast.Tuple) and len(n.ast.value.elts) == 2]
+        if not rets or not all(isinstance(n.ast.value.elts[0], ast.Name) for n in rets):
+            raise AnchorVanished("_find_and_use_share no longer returns (sent_something, want_more_diversity)")
+        sent = rets[0].ast.value.elts[0].id
+        starts = [c for n in cfg.find(_calls(fu, "self._start_share")) for c in node_calls(n) if call_tail(c) == "_start_share"]
+        if not starts or not all(c.args and attr_path(c.args[0]) for c in starts):
+            r.violation(fu, fu.loc(), "_find_and_use_share no longer starts (self._start_share(share, ..)) the share it picks")
+        else:
+            sv = attr_path(starts[0].args[0])
+            r.site(fu, starts[0], "picked share `%s`" % sv)
+            on_unused = _on_path(fu, "self._shares")
+
+            def facts(n):
+                out = set()
+                if any(call_tail(c) == "_start_share" and c.args and attr_path(c.args[0]) == sv for c in node_calls(n)):
+                    out.add("start")
+                if "self._active_share_map[]" in node_stores(n):
+                    v = n.ast.value if isinstance(n.ast, ast.Assign) else None
+                    if v is not None and (attr_path(v) == sv or fx.norm(n, v) == sv):
+                        out.add("active")
+                if any(m in ("remove", "pop") for (m, _c) in on_unused(n)) or \
+                        (n.kind == "stmt" and {"self._shares", "self._shares[]"} & node_stores(n)):
+                    out.add("removed")
+                if _stores_const(sent, True)(n):
+                    out.add("flag")
+                return out
+
+            def transfer(n, lab, nxt, st):
+                if lab == "exc":
+                    return None
+                if n.kind in ("entry", "exit", "raise"):
+                    return st
+                e = facts(n)
+                return st | frozenset(e) if e else st
+            visited, parent = explore(cfg, frozenset(), transfer)
+            r.count(len(visited))
+            words = {"start": "requesting its block (self._start_share): the fetcher counts a request that was never made "
+                              "and waits for ever",
+                     "active": "recording it in _active_share_map: the request in flight is not counted, so the "
+                               "no-more-shares test reports not-enough-shares while the block is on its way",
+                     "removed": "removing it from the unused list self._shares: after CORRUPT / DEAD the same share is picked "
+                                "again, and a dead share never answers",
+                     "flag": "reporting it (`%s = True`): _do_loop takes the pass for fruitless and, once the finder is "
+                             "done, fails the read with unused shares left" % sent}
+            reported = set()
+            for (nid, st) in sorted(visited, key=lambda x: (x[0], sorted(x[1]))):
+                if nid != cfg.exit.id or not (st & {"start", "active"}):
+                    continue
+                for m in sorted(set(words) - st):
+                    if m in reported:
+                        continue
+                    reported.add(m)
+                    w = witness(cfg, parent, (nid, st))
+                    r.violation(fu, fu.loc(starts[0]), "_find_and_use_share can pick share `%s` without %s (path: %s)" % (
+                        sv, words[m], w.brief()), w)
+
+        # (f) SegmentFetcher._do_loop asks for more shares before it settles down to wait with fewer than k
+        dl = idx.func(FETCH + "._do_loop")
+        cfg = dl.cfg()
+        fx = _fnorm(dl)
+        def hungry_edge(n, lab):
+            f = fx.edge_fact(n, lab)
+            return bool(f) and f[0] == "<" and f[2] == "self._k" and f[1].startswith("len(") \
+                and all(("self.%s" % a) in f[1] for a in ("_blocks", "_active_share_map"))
+
+        def on_cycle(n):
+            for (d, l) in cfg.succ[n.id]:
+                if hungry_edge(n, l):
+                    vis, _par = explore(cfg, 0, lambda m, lab, nxt, st: None if lab == "exc" else 0, start=cfg.nodes[d])
+                    if (n.id, 0) in vis:
+                        return True
+            return False
+        heads = [n for n in cfg.nodes if n.kind == "test" and on_cycle(n)]
+        if not heads:
+            raise AnchorVanished("_do_loop no longer loops while blocks + active shares are fewer than k")
+        asks = lambda n: _calls(dl, "self._ask_for_more_shares", "self._node.want_more_shares", "self._no_shares_error")(n)
+        for h in heads:
+            r.site(dl, h.ast, "asks before waiting")
+            for (d, l) in cfg.succ[h.id]:
+                if not hungry_edge(h, l):
+                    continue
+
+                def transfer(n, lab, nxt, st, _h=h):
+                    if lab == "exc" or n is _h or asks(n):
+                        return None
+                    return 0
+                visited, parent = explore(cfg, 0, transfer, start=cfg.nodes[d])
+                r.count(len(visited))
+                if (cfg.exit.id, 0) in visited:
+                    w = witness(cfg, parent, (cfg.exit.id, 0))
+                    r.violation(dl, dl.loc(h.ast), "_do_loop can return with fewer than k blocks and requests and without asking "
+                                "for more shares (_ask_for_more_shares): the finder is never made hungry again and the "
+                                "remaining servers are never queried (path: %s)" % w.brief(), w)
+
+        # (g) the loops do their work for a live share / a running fetcher / a running, hungry finder
+        for (qual, target, flags, what) in (
+                (SHARE + ".loop", "self._do_loop", ("self._alive",), "a live share"),
+                (FETCH + "._do_loop", "self._find_and_use_share", ("self._running",), "a running fetcher"),
+                (FINDER + ".loop", "self.send_request", ("self.running", "self._hungry"), "a running, hungry finder")):
+            f = idx.func(qual)
+            if not f.cfg().find(_calls(f, target)):
+                raise AnchorVanished("%s no longer calls %s" % (short(f), target))
+            r.site(f, None, "reaches %s for %s" % (target, what))
+            ok, k = _reaches_when(f, _calls(f, target), lambda op, l, rr, _fl=flags: op == "false" and l in _fl)
+            r.count(k)
+            r.require(ok, f, f.loc(), "%s reaches %s only when %s is false: for %s it does nothing, so no request is ever "
+                      "sent" % (short(f), target, " / ".join(flags), what))
+
+
+def _rule_request_accounting(ctx: Context):
+    """C03.8: `pending_requests` is the premise of the no_more_shares gate (C03.4): it must hold exactly the DYHB
+    queries in flight, whatever their outcome."""
+    idx = ctx.idx
+    with ctx.rule("C03.8", "R2", "ShareFinder.pending_requests holds exactly the queries in flight: send_request enters the "
+                  "token, the DYHB Deferred retires it on success and failure, _request_retired removes it, overdue() marks "
+                  "it; the server variable of ShareFinder.loop is bound on every path", expected=5) as r:
+        sr = idx.func(FINDER + ".send_request")
+        chain = [x for x in registrations(sr) if x.recv == _deferred_var(sr, "get_buckets")]
+        r.site(sr, None, "chain retires the request")
+        ir = [i for i, x in enumerate(chain) if attr_path(_effective(x)[0]) == "self._request_retired"]
+        tok = None
+        if not ir:
+            r.violation(sr, sr.loc(), "the DYHB Deferred no longer retires the request (self._request_retired): "
+                        "pending_requests never empties, the finder never announces no_more_shares and a read with too few "
+                        "shares never fails")
+        else:
+            x = chain[ir[0]]
+            r.require(_always_runs(sr, chain, ir[0]), sr, sr.loc(x.call), "the request is retired (%r) only when the query "
+                      "succeeded: a server that errors or disconnects stays in pending_requests for ever, so no_more_shares is "
+                      "never announced and a read with too few shares never fails" % x)
+            a = _effective(x)[1]
+            tok = attr_path(a[0]) if a else None
+            if tok is None:
+                raise AnchorVanished("_request_retired is no longer registered with the request token")
+        if tok is not None:
+            on_pending = _on_path(sr, "self.pending_requests")
+            r.site(sr, None, "token `%s` enters pending_requests" % tok)
+            _must_pass(r, sr, lambda n: any(m == "add" and c.args and attr_path(c.args[0]) == tok for (m, c) in on_pending(n)),
+                       "entering the request token `%s` into pending_requests: the finder can announce no_more_shares while "
+                       "this query is in flight, and the shares of a late server are given up" % tok)
+        rr = idx.func(FINDER + "._request_retired")
+        p = first_positional_params(rr)[0]
+        on_pending = _on_path(rr, "self.pending_requests")
+        r.site(rr, None, "removes the token")
+        _must_pass(r, rr, lambda n: any(m in ("discard", "remove") and c.args and attr_path(c.args[0]) == p for (m, c) in on_pending(n))
+                   or (n.kind == "stmt" and "self.pending_requests" in node_stores(n)),
+                   "removing `%s` from pending_requests: no_more_shares is never announced" % p,
+                   _fact_excuse(rr, lambda op, l, x, _p=p: op == "not in" and l == _p and x == "self.pending_requests"))
+        od = idx.func(FINDER + ".overdue")
+        p = first_positional_params(od)[0]
+        on_overdue = _on_path(od, "self.overdue_requests")
+        r.site(od, None, "marks the request overdue")
+        _must_pass(r, od, lambda n: any(m == "add" and c.args and attr_path(c.args[0]) == p for (m, c) in on_overdue(n)),
+                   "marking `%s` overdue (self.overdue_requests.add): a slow server keeps its query slot, and with "
+                   "max_outstanding_requests slow servers the remaining ones are not asked until one of them answers" % p)
+        fl = idx.func(FINDER + ".loop")
+        cfg = fl.cfg()
+        sends = [c for n in cfg.find(_calls(fl, "self.send_request")) for c in node_calls(n) if call_tail(c) == "send_request"]
+        if not sends or not sends[0].args or not isinstance(sends[0].args[0], ast.Name):
+            raise AnchorVanished("ShareFinder.loop no longer calls send_request(<server variable>)")
+        srv = sends[0].args[0].id
+        r.site(fl, sends[0], "`%s` is bound on every path" % srv)
+        if srv not in fl.params:
+            for (n, w) in find_path_avoiding(cfg, _reads(srv), gate_node=stores(srv)):
+                r.violation(fl, fl.loc(n.ast), "`%s` is read but not bound on a path (%s): once the server list is exhausted the "
+                            "loop dies with UnboundLocalError before it can announce no_more_shares, and a read with too "
+                            "few shares never fails" % (srv, w.brief()), w)
+                break
+
+
 def _rule_alive_filter(ctx: Context):
     """C03.6: a share that has died never reports back (Share.loop returns at once when not alive), so a
     fetcher that is handed a dead share keeps it in its active map and waits forever.  Every share list
@@ -787,3 +1168,5 @@ _run_without_alive = run
 def run(ctx: Context):   # noqa: F811
     _run_without_alive(ctx)
     _rule_alive_filter(ctx)
+    _rule_hand_over(ctx)
+    _rule_request_accounting(ctx)
